@@ -96,7 +96,7 @@ func btmOuts(tx *types.Tx) []*chainkit.UTXO {
 // conflicting spends of one fund, chains (child / grandchild), conflicting children,
 // two-parent joins, a transaction with a time range (its restoration fails when the
 // new chain is higher), and a BCRP registration (valid in a block, dust for the pool).
-func genUniverse(r *ev.Rand, g *chainkit.Genesis) *universe {
+func genUniverse(r *ev.Rand, net *chainkit.Net, g *chainkit.Genesis) *universe {
 	u := &universe{ByID: map[bc.Hash]*utx{}}
 	nRoots := r.Range(3, 5)
 	fund := 0
@@ -121,12 +121,27 @@ func genUniverse(r *ev.Rand, g *chainkit.Genesis) *universe {
 		reg := chainkit.Out{Asset: chainkit.BTM, Amount: consensus.BCRPRequiredBTMAmount, Program: chainkit.RegisterProg(contract)}
 		u.add("D", "dust-bcrp", pay(r, []*chainkit.UTXO{f}, 1, 0, []chainkit.Out{reg}), nil, true)
 	}
+	// transactions whose first output is not an ordinary one (a vote, a retirement) followed by an
+	// ordinary change output: the pool indexes only the ordinary outputs
+	if r.Chance(2, 3) {
+		f := g.Funds[fund]
+		fund++
+		vote := chainkit.Out{Asset: chainkit.BTM, Amount: consensus.MinVoteOutputAmount * uint64(1+r.Intn(3)), Program: chainkit.RandProg(r), Vote: net.VoteKey(r.Intn(net.P.NKeys))}
+		u.add("V", "vote-then-change", pay(r, []*chainkit.UTXO{f}, 1+r.Intn(2), 0, []chainkit.Out{vote}), nil, false)
+	}
+	if r.Chance(1, 2) {
+		f := g.Funds[fund]
+		fund++
+		burn := chainkit.Out{Asset: chainkit.BTM, Amount: uint64(1 + r.Intn(100000)), Program: []byte{0x6a, 0x01, byte(r.Intn(256))}}
+		u.add("B", "retire-then-change", pay(r, []*chainkit.UTXO{f}, 1+r.Intn(2), 0, []chainkit.Out{burn}), nil, false)
+	}
 	// children / conflicting children / grandchildren
 	nBase := len(u.Txs)
 	for i := 0; i < nBase; i++ {
 		p := u.Txs[i]
 		outs := btmOuts(p.Tx)
-		if len(outs) == 0 || !r.Chance(1, 2) {
+		special := p.Kind == "vote-then-change" || p.Kind == "retire-then-change"
+		if len(outs) == 0 || !(r.Chance(1, 2) || (special && r.Chance(1, 2))) {
 			continue
 		}
 		ch := u.add("C("+p.Name+")", "child", pay(r, outs[:1], 1+r.Intn(2), 0, nil), []int{p.Idx}, false)
